@@ -134,6 +134,18 @@ pub fn generate(tier: Tier, rng: &mut Rng) -> Vec<Case> {
         "x.all(\n1, y)", "has(\nm)", "[1, 2, 3]\n  .map(\n'v', v + 1)", "x.map(\n\n1, 2)", "x.filter(\r\n1, 2)", "['éé'].all(\n1,\n2)"] {
         push(src.to_string(), "catalogue");
     }
+    // numeric literals at and just beyond the limits of their kind, in every spelling (decimal,
+    // hex, signed, unsigned suffix, exponent) and in several syntactic positions
+    for lit in [
+        "9223372036854775807", "9223372036854775808", "-9223372036854775808", "-9223372036854775809", "18446744073709551615u", "18446744073709551616u", "18446744073709551615", "-1u", "-0u",
+        "0x7FFFFFFFFFFFFFFF", "0x8000000000000000", "-0x8000000000000000", "-0x8000000000000001", "-0x7FFFFFFFFFFFFFFF", "0xFFFFFFFFFFFFFFFF", "0xFFFFFFFFFFFFFFFFu", "0x10000000000000000", "0x10000000000000000u",
+        "-0xFFFFFFFFFFFFFFFF", "0X1f", "0x0", "-0x0", "0x00000000000000000001", "1e308", "1e309", "-1e309", "1e-400", "1.7976931348623157e308", "1.7976931348623159e308", "4.9e-324", "0e999", "00", "007", "-007", "1e0000000000000000001",
+        "99999999999999999999999999999999", "0.99999999999999999999999999999999", "123456789012345678901234567890u",
+    ] {
+        for src in [lit.to_string(), format!("x == {lit} ? 1 : 2"), format!("[{lit}]"), format!("{{{lit}: 1}}"), format!("f({lit})"), format!("-{lit}"), format!("-({lit})"), format!("1 - {lit}"), format!("{lit}.size()")] {
+            push(src, "limit-literals");
+        }
+    }
     // white-space-only and comment-only sources of several lines
     for src in ["\n", "\n\n", " \n", "\t\n  \n", "\r\n", " \n \n ", "\n// c", "// c\n", "// c\n\n", "\u{c}\n"] {
         push(src.to_string(), "blank-lines");
